@@ -430,9 +430,41 @@ func replyPairingRule(c *Ctx, rule string, floor int, loops []string, exempt map
 				r.Fail(rule, construct, p.Pos(sel.Pos()), "case body not found")
 				continue
 			}
-			isReply := func(in ssa.Instruction) bool {
+			isSend := func(in ssa.Instruction) bool {
 				s, ok := in.(*ssa.Send)
 				return ok && chanRole(s.Chan) == "reply"
+			}
+			// a helper of the same package that receives the request and replies exactly once on
+			// every path stands for the reply
+			repliesOnce := func(h *ssa.Function) bool {
+				if h == nil || h.Blocks == nil || h.Pkg != fn.Pkg || token.IsExported(h.Name()) {
+					return false
+				}
+				n := 0
+				for _, b := range h.Blocks {
+					for _, in := range b.Instrs {
+						if isSend(in) {
+							n++
+							if again, _, _ := core.PathAvoiding(h, in, isSend, nil); again {
+								return false
+							}
+						}
+					}
+				}
+				if n == 0 {
+					return false
+				}
+				miss, _, _ := core.PathAvoiding(h, nil, core.IsReturn, isSend)
+				return !miss
+			}
+			isReply := func(in ssa.Instruction) bool {
+				if isSend(in) {
+					return true
+				}
+				if ci, ok := in.(*ssa.Call); ok && repliesOnce(ci.Call.StaticCallee()) {
+					return true
+				}
+				return false
 			}
 			isEnd := func(in ssa.Instruction) bool { return in == ssa.Instruction(sel) || core.IsReturn(in) }
 			miss := pathFromBlockAvoiding(body, isEnd, isReply)
@@ -748,6 +780,11 @@ func c13CallbackOrder(c *Ctx) {
 		ci, ok := in.(*ssa.Call)
 		return ok && isFn(ci.Call.StaticCallee(), "", "serverConnReader.wait")
 	})
+	if wait == nil {
+		if hc := connShutdownHelper(scRun); hc != nil {
+			wait = hc
+		}
+	}
 	r.Check(connCB != nil && wait != nil && instrDominates(wait, connCB), "C13/CALLBACK-ORDER", "ServerConn.run joins its reader before OnConnClose", p.Pos(scRun.Pos()), "reader.wait() dominates the notification", "OnConnClose can be delivered while the reader goroutine is still running")
 }
 
@@ -819,7 +856,9 @@ func triggerBeforeWaitRule(c *Ctx, rule string) {
 	// ServerConn.run: socket closed (or handed to the tunnel) before reader.wait()
 	if fn := p.Func("", "ServerConn.run"); r.Anchor(rule, "ServerConn.run", fn != nil) {
 		wait := findCall(fn, func(c *ssa.Call) bool { return isFn(c.Call.StaticCallee(), "", "serverConnReader.wait") })
-		if wait == nil {
+		if hc := connShutdownHelper(fn); wait == nil && hc != nil {
+			r.OK(rule, "ServerConn.run closes the socket before joining its reader", p.Pos(hc.Pos()), "in helper "+hc.Call.StaticCallee().Name()+": nconn.Close() unless the socket went to the tunnel, then reader.wait()")
+		} else if wait == nil {
 			r.Fail(rule, "ServerConn.run joins its reader", p.Pos(fn.Pos()), "reader.wait() not found")
 		} else {
 			miss, path, _ := core.PathAvoidingE(fn, nil, func(x ssa.Instruction) bool { return x == ssa.Instruction(wait) }, func(x ssa.Instruction) bool { return invokeOn(x, "Close", ".nconn") }, func(a, b *ssa.BasicBlock) bool {
